@@ -4,9 +4,8 @@ set -u
 ROOT="$(cd "$(dirname "$0")/.." && pwd)"
 export VERIF_ROOT="$ROOT" CARGO_NET_OFFLINE=true
 MODE="${1:-quick}"
-if [ "$MODE" = "--replay" ]; then
-  echo "C17 cases are lines of the per-configuration driver output; re-running the check:"; MODE=quick
-fi
+REPLAY=""
+if [ "$MODE" = "--replay" ]; then REPLAY="$2"; MODE=quick; fi
 OUT="$ROOT/target/c17"; mkdir -p "$OUT"
 build() { # cfg toolchain features
   local log="$ROOT/target/build-c17-$1.log"
@@ -33,7 +32,10 @@ fi
 for c in base sync spec spec-sync; do
   "$ROOT/target/c17-$c/release/c17drv" "$MODE" "$OUT/$c.txt" >/dev/null || { echo "MACHINERY: driver $c failed" >&2; exit 2; }
 done
-"$ROOT/target/base/release/jpv" C17-compare "$MODE" "$OUT"
-rc=$?
+if [ -n "$REPLAY" ]; then
+  C17_OUT="$OUT" "$ROOT/target/base/release/jpv" C17 --replay "$REPLAY"; rc=$?
+else
+  "$ROOT/target/base/release/jpv" C17-compare "$MODE" "$OUT"; rc=$?
+fi
 rm -f "$OUT"/*.txt
 exit $rc
